@@ -123,14 +123,19 @@ class Repeat(Expression):
         gen.writeln("# <Repeat>")
 
         tmp_pairs = gen.new_temp("children")
-        trivia_pos = gen.new_temp("trivia_pos")
+        first = gen.new_temp("first")
 
-        gen.writeln(f"{trivia_pos} = state.pos")
+        gen.writeln(f"{first} = True")
         gen.writeln(f"{tmp_pairs}: list[Pair] = []")
 
         gen.writeln("while True:")
         with gen.block():
             gen.writeln("state.checkpoint()")
+            # Implicit trivia only counts between two iterations. It is inside
+            # the checkpoint so it is given back if there's no next iteration.
+            gen.writeln(f"if not {first}:")
+            with gen.block():
+                gen.writeln(f"parse_trivia(state, {tmp_pairs})")
             # Parse one item
             self.expression.generate(gen, matched_var, tmp_pairs)
 
@@ -140,15 +145,11 @@ class Repeat(Expression):
                 # Commit the item immediately
                 gen.writeln(f"{pairs_var}.extend({tmp_pairs})")
                 gen.writeln(f"{tmp_pairs}.clear()")
-                # Save pos before trivia
-                gen.writeln(f"{trivia_pos} = state.pos")
-                # Parse trivia after item
-                gen.writeln(f"parse_trivia(state, {tmp_pairs})")
+                gen.writeln(f"{first} = False")
             gen.writeln("else:")
             with gen.block():
-                # Restore checkpoint and also rewind trivia pos
+                # Give back the item and the trivia in front of it
                 gen.writeln("state.restore()")
-                gen.writeln(f"state.pos = {trivia_pos}")
                 # Always succeed
                 gen.writeln(f"{matched_var} = True")
                 gen.writeln("break")
